@@ -92,7 +92,10 @@ Inductive centry :=
 | CAction (name:string) (es:list entry)
 | CHttp (verb:meth) (path:string) (es:list entry).
 
-Inductive titem := TField (f:fielddecl) | TAnno (a:anno).
+(* `name <:` followed by an indented block of fields (grammar inplace_tuple: fields only, to any depth);
+   `name(1..) <:` is the array form *)
+Inductive nfield := NField (f:fielddecl) | NTuple (n:string) (array:bool) (fs:list nfield).
+Inductive titem := TField (f:fielddecl) | TAnno (a:anno) | TTuple (n:string) (array:bool) (fs:list nfield).
 Record umember := Um { um_coll : coll; um_ty : tyexpr; um_size : sizespec }.
 Inductive member :=
 | MAnno (a:anno)
